@@ -7,6 +7,12 @@ Rejections of the data / dimension / property / frame APIs are judged by the sam
 import file_common
 
 def run(chk, replay=None):
+    if replay is not None and replay.get('m') == 'dims':
+        import dims_common
+        return dims_common.run_dims(chk, replay=replay)
+    if replay is not None and replay.get('m') == 'data':
+        import data_common
+        return data_common.run_data(chk, ['array'], replay=replay)
     t = 't' if chk.thorough else 'q'
     cfgs = ['c08%s_%s' % (x, t) for x in 'abc']
     sims = [('all', 3000 if chk.thorough else 200, 30)]
@@ -16,4 +22,17 @@ def run(chk, replay=None):
                 'close+reopen, must be unchanged')
     file_common.run_file_check(chk, cfgs, sims, judge=judge, replay=replay, opts={'reopen_check': True, 'ignore_handles': True},
                                coverage=['Create:reject', 'CreateBad:reject', 'SetOne:reject', 'AddLink:reject', 'SetType:reject'])
+    # rejected calls of the data / dimension APIs: same rule, judged on NixData and NixDims (only the rejected transitions)
+    import data_common, dims_common, vcheck
+    rej = lambda r: r['step']['res'] == 'reject'
+    dims_common.run_dims(chk, judge=rej)
+    binary = vcheck.ensure_build('plain')
+    t = 't' if chk.thorough else 'q'
+    rp = vcheck.Replayer(binary, seed=chk.seed, opts={'types': ['Double', 'String', 'Int16'], 'compressions': ['None']}, chunk=60)
+    for c in ['r1_' + t, 'r2_' + t, 'r3_' + t, 'view1_' + t]:
+        run = vcheck.TlcRun('NixData', 'MC_NixData_%s.cfg' % c, workers=8, coverage=False)
+        recs, verdicts = rp.run(r for r in run if rej(r))
+        run.require_ok()
+        chk.note_tlc(run)
+        chk.absorb(recs, verdicts, rp)
     chk.exhaustive = False
